@@ -652,6 +652,41 @@ func c17(args []string) int {
 			out.Count("logger_streams_cut_and_mutated", 1)
 		}
 	}
+	// streams longer than the decoder's read buffer whose event boundaries fall exactly on multiples of 4096 (and one
+	// byte before / after): every cut point again
+	if f.Shard < 6 {
+		g := &sgen{r: rng.New(f.Seed, 0xc17a, uint64(f.Shard))}
+		target := []int{4096, 4095, 4097, 8192, 4096, 12288}[f.Shard]
+		var st []byte
+		var bounds []int
+		for k, n := 0, f.Shard%3; k < n; k++ {
+			st = g.event(st)
+			bounds = append(bounds, len(st))
+		}
+		// one padded event: bf 63 'p' 'a' 'd' 79 hh ll <n bytes> ff = n + 9 bytes
+		if n := target - len(st) - 9; n >= 256 && n < 65536 {
+			e := g.enc
+			pad := bytes.Repeat([]byte{'p'}, n)
+			st = e.AppendEndMarker(e.AppendString(e.AppendKey(e.AppendBeginMarker(st), "pad"), string(pad)))
+			bounds = append(bounds, len(st))
+			if len(st) != target {
+				fmt.Printf("HARNESS-ERROR c17: aligned stream has %d bytes, wanted %d\n", len(st), target)
+				os.Exit(2)
+			}
+			if f.Shard == 4 {
+				// a second boundary on the next multiple
+				pad2 := bytes.Repeat([]byte{'q'}, 4096-9)
+				st = e.AppendEndMarker(e.AppendString(e.AppendKey(e.AppendBeginMarker(st), "pad"), string(pad2)))
+				bounds = append(bounds, len(st))
+			}
+			for k := 0; k < 3; k++ {
+				st = g.event(st)
+				bounds = append(bounds, len(st))
+			}
+			s.cutsOf(st, bounds)
+			out.Count("buffer_aligned_streams", 1)
+		}
+	}
 	atomic.StoreInt64(&s.started, 0)
 	out.Count("decoder_calls", s.calls)
 	out.Count("calls_returning_error", s.errs)
